@@ -107,8 +107,9 @@ func runC13(c *Ctx, r *Report, tier string) {
 				}
 				pred := p.Block().Preds[i]
 				last := pred.Instrs[len(pred.Instrs)-1]
-				_, a := c.Requires(ip, isInstr(last), func(l Lit) bool { return !l.Pos && strings.HasPrefix(l.Term, "call:(*Option).canArgument(") }, nil)
-				_, bb := c.Requires(ip, isInstr(last), litHas(false, "nonempty(iniValue.Value(new:iniValue))"), nil)
+				o := Origin{Val: e, At: last, Pred: pred, Succ: p.Block()} // (the edge into the merge may itself carry the test)
+				a := c.reqAt(ip, o, func(l Lit) bool { return !l.Pos && strings.HasPrefix(l.Term, "call:(*Option).canArgument(") })
+				bb := c.reqAt(ip, o, litHas(false, "nonempty(iniValue.Value(new:iniValue))"))
 				r.Check(a && bb, "FUNNEL", in_, "nil value only for an argument-less option with an empty value", c.ipos(last), "REQ(¬canArgument ∧ len(Value) == 0)", fmt.Sprintf("¬canArgument necessary=%v empty necessary=%v", a, bb))
 			}
 		}
@@ -281,6 +282,43 @@ func runC13(c *Ctx, r *Report, tier string) {
 			r.Check(req, "ACCUMULATE", c.fname(ri), "a section name is ordered once", c.ipos(s.Store), "ini.order = append(…, name) REQ(Sections[name] == nil)", "a section that is reopened can be entered in the section order again: its entries are then applied twice")
 		}
 		r.Check(nOrd == 1, "ACCUMULATE", c.fname(ri), "section order writer", c.pos(ri.Pos()), "one append", fmt.Sprintf("%d", nOrd))
+	}
+	// entries before any header address ALL groups of the parser's tree (also groups without options of their
+	// own: the root group keeps the name priority across its subgroups)
+	for _, s := range c.instrs(mg, c.isCallTo("(*Group).eachGroup")) {
+		for _, f := range closureArgs(s.(ssa.CallInstruction)) {
+			for _, b := range c.blocks(f) {
+				for _, in := range b.Instrs {
+					st, ok := in.(*ssa.Store)
+					if !ok {
+						continue
+					}
+					if _, isFV := st.Addr.(*ssa.FreeVar); !isFV {
+						continue
+					}
+					var extra []string
+					for _, d := range c.controlDeps(f, b) {
+						if l, ok := c.edgeLit(d.B, d.Succ); ok {
+							extra = append(extra, l.String())
+						}
+					}
+					r.Check(len(extra) == 0, "SECTION", c.fname(f), "the empty section collects every group", c.ipos(st), "append under no condition", "a group is collected only under "+strings.Join(extra, "; "))
+				}
+			}
+		}
+	}
+	// arming for accumulation is unconditional (C05 FLAGS shares the rule)
+	for _, st := range c.storesTo(c.Field("Option", "clearReferenceBeforeSet")) {
+		if c.term(st.Store.Val) != "true" || !c.actsForC(st.Fn, ip) {
+			continue
+		}
+		var extra []string
+		for _, d := range c.controlDeps(st.Fn, st.Store.Block()) {
+			if l, ok := c.edgeLit(d.B, d.Succ); ok {
+				extra = append(extra, l.String())
+			}
+		}
+		r.Check(len(extra) == 0, "ACCUMULATE", c.fname(st.Fn), "every option is armed before the entries are read", c.ipos(st.Store), "clearReferenceBeforeSet = true under no condition", "options are armed only under "+strings.Join(extra, "; ")+": for the others the first entry appends to the previous contents instead of replacing them")
 	}
 	// NOINI: every path that hands a value to an option passes the edge "its no-ini tag is empty"
 	noIniEmpty := func(l Lit) bool {
